@@ -20,6 +20,33 @@ BUILDERS = ['BUFFER', 'NOT', 'AND', 'NAND', 'OR', 'NOR', 'XOR', 'XNOR']
 NEGATED = {'NAND': 'AND', 'NOR': 'OR', 'XNOR': 'XOR'}
 
 
+def no_metadata_reads(ctx, rid, roots):
+    """`name` is display metadata set by create_var; no arithmetic operator maintains it (x *= y keeps the old name).
+    A builder / encoder whose result depends on it computes a different function for a model that was edited in place."""
+    P, R = ctx.prog, ctx.res
+    for fn, recv in roots:
+        reach = R.reachable_funcs(fn, recv)
+        bad = None
+        for (q, r), path in reach.items():
+            f = P.functions.get(q)
+            if f is None:
+                continue
+            for n in ast.walk(f.node):
+                hit = (isinstance(n, ast.Attribute) and n.attr == 'name' and isinstance(n.ctx, ast.Load)) or \
+                      (isinstance(n, ast.Call) and is_name(n.func, 'getattr', 'hasattr') and len(n.args) >= 2
+                       and isinstance(n.args[1], ast.Constant) and n.args[1].value == 'name')
+                if hit:
+                    bad = (f, n, path)
+                    break
+            if bad:
+                break
+        ctx.inst(rid, fn, 'metadata reads reachable from %s' % fn.name, bad is None,
+                 "no reachable function reads the `name` of a model (%d functions)" % len(reach) if bad is None else
+                 "`%s` in %s: the result depends on the operand's `name`, which in-place arithmetic does not maintain - "
+                 "a variable that was edited in place is still treated as the bare variable"
+                 % (src(bad[1])[:60], bad[0].qual), path=bad[2] if bad else None)
+
+
 def rules(ctx):
     P, R = ctx.prog, ctx.res
     E = Effects(P, R)
@@ -116,6 +143,8 @@ def rules(ctx):
                  "are overwritten, idempotence x*x = x is bypassed)" % src(bad[0])[:60])
     from .C05 import imul_rules
     imul_rules(ctx, 'R07.5')
+    ctx.rule('R07.6', "no function reachable from a builder reads the display metadata `name` of an operand", floor=8)
+    no_metadata_reads(ctx, 'R07.6', [(fn, None) for fn in fns.values()])
 
     # ---------------------------------------------------------------- R07.4
     for name, fn in fns.items():
